@@ -1278,7 +1278,45 @@ def _empty_vec(it, p, fid, fn, t, args):
     return Tup(())
 
 
+def _str_parse_int(it, p, fid, fn, t, args):
+    """str::parse::<iN/uN> on a known text (Rust's FromStr for integers: an optional sign, then decimal digits only)."""
+    a = args[0]
+    k = 0
+    while isinstance(a, Ptr) and k < 6:
+        a = it.deref(p, a)
+        k += 1
+    ga = (t.get("func", {}).get("ga") or [None])[0]
+    m = re.match(r"^([iu])(8|16|32|64|128|size)$", ga or "")
+    if not isinstance(a, Str) or not m:
+        return NotImplemented
+    bits = 64 if m.group(2) == "size" else int(m.group(2))
+    lo, hi = (-(1 << (bits - 1)), (1 << (bits - 1)) - 1) if m.group(1) == "i" else (0, (1 << bits) - 1)
+    if re.match(r"^[+-]?[0-9]+$", a.s) and not (m.group(1) == "u" and a.s.startswith("-") and False):
+        v = int(a.s)
+        if a.s.startswith("-") and m.group(1) == "u":
+            return err(Opaque("ParseIntError"))
+        if lo <= v <= hi:
+            return ok(Int(v, ga))
+    return err(Opaque("ParseIntError"))
+
+
+def _res_is(which):
+    def model(it, p, fid, fn, t, args):
+        a = args[0]
+        k = 0
+        while isinstance(a, Ptr) and k < 6:
+            a = it.deref(p, a)
+            k += 1
+        if isinstance(a, Variant) and a.adt == "core::result::Result":
+            return mkbool(a.name == which)
+        return NotImplemented
+    return model
+
+
 DEFAULT_MODELS = {
+    "core::str::<impl str>::parse": _str_parse_int,
+    "core::result::Result::is_ok": _res_is("Ok"),
+    "core::result::Result::is_err": _res_is("Err"),
     "alloc::boxed::box_assume_init_into_vec_unsafe": _vec_from_box,
     "alloc::vec::Vec::new": _empty_vec,
     "core::cell::RefCell::new": _box_new,
